@@ -457,6 +457,16 @@ def discharge(ob, rlimit=0, timeout_ms=3000, use_cvc5=True, long_ms=30000):
 
     z3_try(timeout_ms, 0)
     bi = None
+    if ob.verdict == "unknown" and use_cvc5:
+        # cvc5's quantifier instantiation is complementary to z3's: many obligations z3 leaves open are
+        # decided by it in a fraction of a second
+        cv = run_cvc5(to_smt2(ob.hyps, ob.goal), 10)
+        if cv == "unsat":
+            ob.verdict = "proved"
+            ob.backend = "cvc5-1.0.3"
+        elif cv == "sat":
+            ob.verdict = "failed"
+            ob.backend = "cvc5-1.0.3"
     if ob.verdict == "unknown":
         try:
             br, bm, info = bounded_check(ob.hyps, ob.goal)
@@ -478,14 +488,6 @@ def discharge(ob, rlimit=0, timeout_ms=3000, use_cvc5=True, long_ms=30000):
         ob.verdict = "failed"
         ob.backend = "bounded-instantiation(%s) candidate counter-model; full formula undecided by z3" % bi[1].get("qf_backend")
         model = bi[0]
-    if ob.verdict == "unknown" and use_cvc5:
-        c = run_cvc5(to_smt2(ob.hyps, ob.goal), 20)
-        if c == "unsat":
-            ob.verdict = "proved"
-            ob.backend = "cvc5-1.0.3"
-        elif c == "sat":
-            ob.verdict = "failed"
-            ob.backend = "cvc5-1.0.3"
     if model is not None:
         try:
             ob.model = {str(d): str(model[d])[:160] for d in model.decls() if d.arity() == 0 and
